@@ -128,6 +128,17 @@ def props_for(file: str, func: str) -> list[str]:
     return []
 
 
+BROAD = {
+    "_context.py": ["C01", "C13", "C02", "C03", "C04", "C18", "C12", "C08", "C09", "C06", "C05", "C15", "C19"],
+    "_component.py": ["C05", "C06", "C07", "C14", "C01", "C08", "C09", "C12", "C02", "C18", "C15", "C19"],
+    "_event.py": ["C10", "C11", "C18", "C06"],
+    "_concurrent.py": ["C09", "C08", "C15"],
+    "_runner.py": ["C15", "C16"],
+    "_cli.py": ["C16"],
+    "_utils.py": ["C17", "C14", "C16", "C01", "C07", "C08", "C09", "C15", "C05"],
+}
+
+
 # ---- mutation operators -------------------------------------------------------------------
 NEGATE = {ast.Is: ast.IsNot, ast.IsNot: ast.Is, ast.Eq: ast.NotEq, ast.NotEq: ast.Eq, ast.In: ast.NotIn, ast.NotIn: ast.In,
           ast.Lt: ast.GtE, ast.GtE: ast.Lt, ast.Gt: ast.LtE, ast.LtE: ast.Gt}
@@ -448,6 +459,8 @@ def main() -> int:
     ap.add_argument("--files", nargs="*", default=FILES)
     ap.add_argument("--limit", type=int)
     ap.add_argument("--redo", nargs="*", default=[], help="statuses to run again, e.g. survived")
+    ap.add_argument("--broad", action="store_true", help="second pass: survivors without a judgement are run against every "
+                    "check anchored in their file, not only those of their function")
     a = ap.parse_args()
     os.makedirs(OUT, exist_ok=True)
     if a.cmd == "show":
@@ -468,7 +481,17 @@ def main() -> int:
         return 0
     if a.cmd == "run":
         done = load_results()
-        todo = [m for m in muts if (m["id"] not in done or done[m["id"]].get("status") in a.redo) and (not a.ids or m["id"] in a.ids)]
+        if a.broad:
+            jp = os.path.join(OUT, "judgements.json")
+            judged = json.load(open(jp)) if os.path.exists(jp) else {}
+            todo = []
+            for m in muts:
+                r = done.get(m["id"])
+                if r and r["status"] == "survived" and m["id"] not in judged and (not a.ids or m["id"] in a.ids):
+                    m = dict(m, props=[p for p in BROAD[m["file"]] if True], second_pass=True)
+                    todo.append(m)
+        else:
+            todo = [m for m in muts if (m["id"] not in done or done[m["id"]].get("status") in a.redo) and (not a.ids or m["id"] in a.ids)]
         if a.limit:
             todo = todo[: a.limit]
         print(f"{len(todo)} mutants to run ({len(done)} done before)", flush=True)
